@@ -267,8 +267,11 @@ def no_memo_obligation(prop="C11", replay=None):
     oid = f"{prop}.S.FordLinkProcessor.handleMatch.every_reference_is_looked_up_in_its_own_context"
     fn = loader.find_def("ford._markdown", "FordLinkProcessor.handleMatch")
     rets = [r for r in ast.walk(fn) if isinstance(r, ast.Return)]
+    from contracts import astform
     body = [st for st in fn.body if not (isinstance(st, ast.Expr) and isinstance(st.value, ast.Constant))]
-    ok = len(rets) == 1 and len(body) == 1 and isinstance(rets[0].value, ast.Tuple) and ast.unparse(rets[0].value.elts[0]) == "self.convert_link(m)"
+    # (plain once-bound locals in front of the return are the same form)
+    plain = [st for st in body if not (isinstance(st, ast.Assign) and len(st.targets) == 1 and isinstance(st.targets[0], ast.Name))]
+    ok = len(rets) == 1 and len(plain) == 1 and isinstance(rets[0].value, ast.Tuple) and astform.text(fn, rets[0].value.elts[0]) == "self.convert_link(m)"
     r = OR(id=oid, status=PROVED if ok else UNKNOWN, kind="S", role="post", backend="ast", target="ford._markdown.FordLinkProcessor.handleMatch",
            desc="handleMatch is the single statement `return (self.convert_link(m), m.start(0), m.end(0))`: no result is carried over from another text")
     if not ok:
